@@ -3,4 +3,6 @@ CONSTANTS
   MaxStr = 2
 SPECIFICATION Spec
 INVARIANT ReadEqualsWritten
+INVARIANT TokensReadEqualWritten
+INVARIANT FieldTextsReadEqualWritten
 CHECK_DEADLOCK FALSE
